@@ -338,6 +338,23 @@ def reevaluate(ctx, n):
             and np.allclose(r[1][2].array, np.einsum("ij,ij->", A, B)) and r[1][0].tensor_shape == (1, 1)
         if not ok:
             ctx.disagree("C05:reevaluate", desc, float(np.einsum("ij,ij->", A, B)), r[1:3] if r[0] != "ok" else (r[1][1].tensor_shape, np.asarray(r[1][1].array).tolist()), replay=[desc])
+        # the other way to extend a diagram: add_node (no edge) after an evaluation
+        v = np.array([rng.randint(-3, 3) for _ in range(d)], dtype=float)
+        def run2():
+            a, b, c = Tensor(A, covariant=[0]), Tensor(B, covariant=[0]), Tensor(v, covariant=bool(k % 2))
+            dg = TensorDiagram((a, b))
+            first = dg.calculate()
+            dg.add_node(c)
+            return first, dg.calculate()
+        r = call_impl(run2)
+        ab = np.einsum("ai,ka->ki", A, B)
+        exp = np.einsum("ki,c->kci", ab, v) if k % 2 else np.einsum("ki,c->kic", ab, v)
+        ok = r[0] == "ok" and np.allclose(r[1][0].array, ab) and r[1][1].array.shape == exp.shape and np.allclose(r[1][1].array, exp) \
+            and r[1][1].tensor_shape == ((2, 1) if k % 2 else (1, 2))
+        ctx.count("reevaluate:add_node")
+        if not ok:
+            ctx.disagree("C05:reevaluate:add_node", desc + f" then add_node({v.tolist()}, {'covariant' if k % 2 else 'contravariant'})", exp.tolist(),
+                         r[1:3] if r[0] != "ok" else (r[1][1].tensor_shape, np.asarray(r[1][1].array).tolist()), replay=[desc])
 
 
 def copy_stream(ctx, n):
